@@ -450,6 +450,16 @@ def _enclosing_name(idx, m, node):
     return '<module>'
 
 
+def _absent(r, idx, fi, construct, detail, loc='', **kw):
+    """An expected construct was not found: a definite break only when the function calls no unreviewed helper
+    (the construct may have moved there); otherwise undecided."""
+    unrev = [h.qualname.replace('mitxgraders.', '') for h in _followed_callees(idx, fi, set()) if h.qualname in idx.unreviewed]
+    if unrev:
+        r.undecided(construct, '%s -- not decided: %s calls unreviewed helper(s) %s' % (detail, fi.name, ', '.join(unrev)), loc)
+    else:
+        r.violation(construct, detail, loc, **kw)
+
+
 # ----------------------------------------------------------------------------- D4
 def d4_init(ctx, idx, fam):
     r = ctx.rule('D4.INIT', 'constructor pipeline: kwargs iff config is None, registered defaults under the given configuration, '
@@ -481,10 +491,10 @@ def d4_init(ctx, idx, fam):
                 calls = [e for e in p.effects if isinstance(e, ast.Expr) and isinstance(e.value, ast.Call)
                          and nf.callee_name(e.value) == 'validate_config']
                 if calls:
-                    r.violation(construct, 'the result of validate_config is not stored in self.config: defaults filled in and values '
+                    _absent(r, idx, fi, construct, 'the result of validate_config is not stored in self.config: defaults filled in and values '
                                 'coerced by the schema are lost', lib.loc(fi, calls[0]), expected='self.config = self.validate_config(...)')
                 else:
-                    r.violation(construct, 'self.config is not assigned on this path', where)
+                    _absent(r, idx, fi, construct, 'self.config is not assigned on this path', where)
                 continue
             val = stores[-1].value
             where = lib.loc(fi, stores[-1])
@@ -639,8 +649,14 @@ def d4_init(ctx, idx, fam):
             construct = '%s.__init__ [delegation]' % ci.name
             sup = [c for c in walk_own(f.node) if isinstance(c, ast.Call) and nf.callee_name(c) == '__init__'
                    and isinstance(c.func, ast.Attribute) and isinstance(c.func.value, ast.Call) and nf.callee_name(c.func.value) == 'super']
+            explicit = [c for c in walk_own(f.node) if isinstance(c, ast.Call) and nf.callee_name(c) == '__init__'
+                        and isinstance(c.func, ast.Attribute) and isinstance(c.func.value, (ast.Name, ast.Attribute)) and c.args
+                        and isinstance(c.args[0], ast.Name) and c.args[0].id == f.params[0]]
+            if not sup and explicit:
+                r.undecided(construct, 'delegation through an explicit base-class call `%s`' % short(explicit[0]), lib.loc(f, explicit[0]))
+                continue
             if not sup:
-                r.violation(construct, 'the constructor no longer calls super().__init__: the configuration is never validated and '
+                _absent(r, idx, f, construct, 'the constructor no longer calls super().__init__: the configuration is never validated and '
                             'self.config does not exist', f.loc, expected='super(%s, self).__init__(config, **kwargs)' % ci.name)
                 continue
             c = sup[0]
@@ -1063,7 +1079,7 @@ def d5_cross(ctx, idx, fam):
             fi = idx.func(caller)
             calls = lib.calls_named(fi.node, callee)
             if not calls:
-                r.violation(construct, '%s no longer calls %s: the cross-option rules it enforces are never checked during construction'
+                _absent(r, idx, fi, construct, '%s no longer calls %s: the cross-option rules it enforces are never checked during construction'
                             % (fi.qualname.replace('mitxgraders.', ''), callee), fi.loc, expected='a call of %s' % callee)
                 continue
             call = calls[0]
@@ -1118,7 +1134,7 @@ def d5_cross(ctx, idx, fam):
             construct = "validate_math_config: warn_if_override('%s')" % key
             c = seen.get(key)
             if c is None:
-                r.violation(construct, "the override check for '%s' is gone: an author can silently shadow a default %s"
+                _absent(r, idx, vm, construct, "the override check for '%s' is gone: an author can silently shadow a default %s"
                             % (key, 'function' if defaults.endswith('functions') else 'constant'), vm.loc,
                             expected="warn_if_override(self.config, '%s', self.%s)" % (key, defaults))
                 continue
@@ -1401,44 +1417,84 @@ def d6_helpers(ctx, idx, fam):
                 r.ok(construct, 'Length(min=1) in all %d schema variant(s)' % len(schemas), f.loc)
         # PercentageString
         ps = idx.func(VFQ + 'PercentageString')
-        negs = [n for n in walk_own(ps.node) if isinstance(n, ast.If) and any(isinstance(s, ast.Raise) and
-                nf.exc_class_name(s.exc) == 'Invalid' for s in n.body)]
-        res = nf.classify('_P < 0', negs[0].test) if len(negs) == 1 else nf.UNRECOGNISED
-        if res == nf.MATCH:
-            r.ok('PercentageString [sign]', 'negative percentages raise Invalid', lib.loc(ps, negs[0]))
+        helpers = [h for h in _followed_callees(idx, ps, set())]
+        unrev = [h for h in helpers if h.qualname in idx.unreviewed]
+        raising_ifs = [n for n in walk_own(ps.node) if isinstance(n, ast.If) and any(isinstance(x, ast.Raise) and
+                       nf.exc_class_name(x.exc) == 'Invalid' for x in n.body)]
+        sign_ifs = []
+        for n in raising_ifs:
+            res = nf.classify('_P < 0', n.test)
+            if res == nf.MATCH or isinstance(res, tuple):
+                sign_ifs.append((n, res))
+        exact = [x for x in sign_ifs if x[1] == nf.MATCH]
+        if exact:
+            n = exact[0][0]
+            r.ok('PercentageString [sign]', 'negative percentages raise Invalid', lib.loc(ps, n))
             # same NaN consideration as for Range (RAW ast: nf.canon identifies `not p >= 0` with `p < 0`)
-            t = negs[0].test
+            t = n.test
             negated = isinstance(t, ast.UnaryOp) and isinstance(t.op, ast.Not) and isinstance(t.operand, ast.Compare)
             nan_guard = any(isinstance(c, ast.Call) and nf.callee_name(c) in ('isnan', 'isfinite') for c in ast.walk(ps.node)) or \
                 any(isinstance(c, ast.Compare) and len(c.ops) == 1 and isinstance(c.ops[0], (ast.NotEq, ast.Eq)) and
                     isinstance(c.left, ast.Name) and isinstance(c.comparators[0], ast.Name) and c.left.id == c.comparators[0].id
                     for c in ast.walk(ps.node))
             if negated or nan_guard:
-                r.ok('PercentageString [unordered]', "'nan%' is refused", lib.loc(ps, negs[0]))
-            elif isinstance(t, ast.Compare):
+                r.ok('PercentageString [unordered]', "'nan%' is refused", lib.loc(ps, n))
+            elif isinstance(t, ast.Compare) and not unrev:
                 r.violation('PercentageString [unordered]', "the sign test is the positive form `%s`: float('nan') < 0 is False, so the "
                             "string 'nan%%' is accepted as a valid percentage -- FormulaGrader(answers='1', tolerance='nan%%') is "
                             "constructed (tolerance is documented as 'positive or zero') and then grades the exact answer '1' as "
-                            "incorrect, because no difference is <= nan" % short(t), lib.loc(ps, negs[0]),
+                            "incorrect, because no difference is <= nan" % short(t), lib.loc(ps, n),
                             expected='if not percent >= 0: raise Invalid(...)', found=short(t))
             else:
-                r.undecided('PercentageString [unordered]', 'sign test not recognised: %s' % short(t), lib.loc(ps, negs[0]))
-        elif isinstance(res, tuple):
-            r.violation('PercentageString [sign]', 'the sign check of percentages changed: %s' % res[1], lib.loc(ps, negs[0]),
-                        expected='percent < 0', found=short(negs[0].test))
-        elif not negs:
-            r.violation('PercentageString [sign]', 'negative percentages are no longer refused', ps.loc, expected='if percent < 0: raise Invalid')
+                r.undecided('PercentageString [unordered]', 'sign test not recognised: %s' % short(t), lib.loc(ps, n))
+        elif sign_ifs:
+            n, res = sign_ifs[0]
+            r.violation('PercentageString [sign]', 'the sign check of percentages changed: %s' % res[1], lib.loc(ps, n),
+                        expected='percent < 0', found=short(n.test))
         else:
-            r.undecided('PercentageString [sign]', 'not recognised', ps.loc)
-        last = ps.node.body[-1]
-        r.check(isinstance(last, ast.Raise) and nf.exc_class_name(last.exc) == 'Invalid', 'PercentageString [fallthrough]',
-                'anything else raises Invalid', 'values that are not percentage strings are no longer refused with Invalid (last statement `%s`)'
-                % short(last), lib.loc(ps, last), expected='raise Invalid(...)')
-        ends = [n for n in walk_own(ps.node) if isinstance(n, ast.If) and nf.classify("_W.endswith('%')", n.test) == nf.MATCH]
+            zero_cmps = [c for f_ in [ps] + helpers for c in ast.walk(f_.node) if isinstance(c, ast.Compare) and any(
+                isinstance(x, ast.Constant) and x.value == 0 and not isinstance(x.value, bool) for x in [c.left] + c.comparators)]
+            if not zero_cmps and not unrev:
+                r.violation('PercentageString [sign]', 'negative percentages are no longer refused (no comparison with 0 is left in the '
+                            'validator)', ps.loc, expected='if percent < 0: raise Invalid')
+            else:
+                r.undecided('PercentageString [sign]', 'sign check not recognised', ps.loc)
+        pcfg = cfg_of(ps.node)
+        falls = [p_ for p_, lab in pcfg.exit_return.preds if not (p_.kind == 'stmt' and isinstance(p_.ast, ast.Return))]
+        other = [x for x in lib.raises_of(ps.node) if x.exc is not None and nf.exc_class_name(x.exc) != 'Invalid']
+        has_invalid = any(nf.exc_class_name(x.exc) == 'Invalid' for x in lib.raises_of(ps.node) if x.exc is not None)
+        if falls:
+            r.violation('PercentageString [fallthrough]', 'a path falls off the end of the validator: a value that is not a percentage '
+                        'string is turned into None instead of being refused with Invalid', ps.loc, expected='raise Invalid(...)')
+        elif other:
+            r.violation('PercentageString [fallthrough]', 'values that are not percentage strings are refused with %s instead of Invalid'
+                        % nf.exc_class_name(other[0].exc), lib.loc(ps, other[0]), expected='raise Invalid(...)')
+        elif not has_invalid:
+            r.undecided('PercentageString [fallthrough]', 'no raise Invalid found', ps.loc)
+        else:
+            r.ok('PercentageString [fallthrough]', 'every path returns a validated string or raises Invalid', ps.loc)
+        suffix_tests = []
+        for f_ in [ps] + helpers:
+            for n in ast.walk(f_.node):
+                if isinstance(n, ast.Call) and nf.callee_name(n) == 'endswith' and n.args and nf.const_value(n.args[0]) == '%':
+                    suffix_tests.append((f_, n))
         rets = lib.returns_of(ps.node)
-        inside = ends and all(any(rt is x for s in ends[0].body for x in ast.walk(s)) for rt in rets)
-        r.check(bool(inside) and bool(rets), 'PercentageString [suffix]', "only strings ending in '%' are accepted",
-                "a value is returned as a valid percentage without the check that it ends in '%'", ps.loc)
+        ends = [n for n in walk_own(ps.node) if isinstance(n, ast.If) and nf.classify("_W.endswith('%')", n.test) == nf.MATCH]
+        inside = ends and all(any(rt is x for s_ in ends[0].body for x in ast.walk(s_)) for rt in rets)
+        if inside and rets:
+            r.ok('PercentageString [suffix]', "only strings ending in '%' are accepted", ps.loc)
+        elif suffix_tests:
+            if any(f_ is not ps for f_, n in suffix_tests) or not ends:
+                r.ok('PercentageString [suffix]', "the '%%' suffix is tested (in %s)" % suffix_tests[0][0].name, lib.loc(suffix_tests[0][0], suffix_tests[0][1]),
+                     nontrivial=False)
+            else:
+                r.violation('PercentageString [suffix]', "a value is returned as a valid percentage on a path that skips the check that it "
+                            "ends in '%'", ps.loc)
+        elif unrev:
+            r.undecided('PercentageString [suffix]', "no test for the '%' suffix recognised", ps.loc)
+        else:
+            r.violation('PercentageString [suffix]', "the check that the string ends in '%' is gone: any number-like string is accepted as a "
+                        "percentage", ps.loc, expected="work.endswith('%')")
         # is_shape_specification
         fi, t = call_helper('is_shape_specification')
         got = nv(t)
@@ -1753,7 +1809,7 @@ def d7_answers(ctx, idx, fam):
                         "{'expect': answer, 'ok': True}" % short(alt_fall[0].args[0]), lib.loc(vs, alt_fall[0]),
                         expected="{'expect': answer, 'ok': True}", found=short(alt_fall[0].args[0]))
         else:
-            r.violation('ItemGrader.validate_single_answer [fallback]', 'plain (non-dictionary) answers are no longer converted into the '
+            _absent(r, idx, vs, 'ItemGrader.validate_single_answer [fallback]', 'plain (non-dictionary) answers are no longer converted into the '
                         "dictionary form", vs.loc, expected="self.schema_answer({'expect': answer, 'ok': True})")
         recs = [n for n in walk_own(vs.node) if isinstance(n, ast.If) and any(
             isinstance(s, ast.Assign) and lib.subscript_key(s.targets[0]) == 'ok' for s in n.body)]
@@ -1905,6 +1961,23 @@ BENIGN = [
     Benign('range-flag-negated', VOL,
            "        if self.max_included:\n            if self.max is not None and not v <= self.max:\n                raise RangeInvalid(\n                    self.msg or 'value must be at most %s' % self.max)\n        else:\n            if self.max is not None and not v < self.max:\n                raise RangeInvalid(\n                    self.msg or 'value must be lower than %s' % self.max)",
            "        if not self.max_included:\n            if self.max is not None and not v < self.max:\n                raise RangeInvalid(\n                    self.msg or 'value must be lower than %s' % self.max)\n        else:\n            if self.max is not None and not v <= self.max:\n                raise RangeInvalid(\n                    self.msg or 'value must be at most %s' % self.max)"),
+    Benign('list-of-type-checks-list', VF, "        if validator:\n            schema = Schema(All([given_type], Length(min=1), [validator]))\n        else:\n            schema = Schema(All([given_type], Length(min=1)))\n        return schema(config_input)",
+           "        checks = [[given_type], Length(min=1)]\n        if validator:\n            checks.append([validator])\n        return Schema(All(*checks))(config_input)"),
+    Benign('equal-length-any', LG, "        for answer_list in answers_tuple:\n            if len(answer_list) != len(answers_tuple[0]):\n                raise ConfigError(\"All possible list answers must have the same length\")",
+           "        if any(len(answer_list) != len(answers_tuple[0]) for answer_list in answers_tuple):\n            raise ConfigError(\"All possible list answers must have the same length\")"),
+    Benign('group-length-any', LG, "            for group in self.grouping:\n                if len(group) != group_len:\n                    raise ConfigError(\"Groups must all be the same length when unordered\")",
+           "            if any(len(group) != group_len for group in self.grouping):\n                raise ConfigError(\"Groups must all be the same length when unordered\")"),
+    Benign('nested-delimiters-without-outer-guard', LG,
+           "        if isinstance(self.config['subgrader'], SingleListGrader):\n            delimiters = [self.config['delimiter']]\n            subgrader = self.config['subgrader']\n            while isinstance(subgrader, SingleListGrader):\n                if subgrader.config['delimiter'] in delimiters:\n                    raise ConfigError(\"Nested SingleListGraders must use different delimiters.\")\n                delimiters.append(subgrader.config['delimiter'])\n                subgrader = subgrader.config['subgrader']",
+           "        used_delimiters = [self.config['delimiter']]\n        nested = self.config['subgrader']\n        while isinstance(nested, SingleListGrader):\n            delimiter = nested.config['delimiter']\n            if delimiter in used_delimiters:\n                raise ConfigError(\"Nested SingleListGraders must use different delimiters.\")\n            used_delimiters.append(delimiter)\n            nested = nested.config['subgrader']"),
+    Benign('dependent-sampler-helper', SAM,
+           "        try:\n            parsed = parse(self.config['formula'])\n            self.config['depends'] = list(parsed.variables_used)\n        except CalcError:\n            raise ConfigError(\"Formula error in dependent sampling formula: \" +\n                              self.config[\"formula\"])\n\n    def gen_sample(self):",
+           "        self.config['depends'] = self._find_dependencies(self.config['formula'])\n\n    @staticmethod\n    def _find_dependencies(formula):\n        try:\n            return list(parse(formula).variables_used)\n        except CalcError:\n            raise ConfigError(\"Formula error in dependent sampling formula: \" + formula)\n\n    def gen_sample(self):"),
+    Benign('ok-recompute-with-temporary', BASE,
+           "        if validated_answer['ok'] == 'computed' or validated_answer['grade_decimal'] != 1:\n            validated_answer['ok'] = self.grade_decimal_to_ok(validated_answer['grade_decimal'])",
+           "        grade_decimal = validated_answer['grade_decimal']\n        if validated_answer['ok'] == 'computed' or grade_decimal != 1:\n            validated_answer['ok'] = self.grade_decimal_to_ok(grade_decimal)"),
+    Benign('abstract-credit-base', ATT, "class LinearCredit(ObjectWithSchema):",
+           "import abc\n\nclass _AttemptCredit(ObjectWithSchema):\n    @abc.abstractmethod\n    def _raw_credit(self, attempt):\n        pass\n\nclass LinearCredit(_AttemptCredit):"),
     Benign('log-in-init', BASE, "        # Validate the configuration\n        self.config = self.validate_config(use_config)",
            "        _n = len(use_config) if isinstance(use_config, dict) else 0\n        self.config = self.validate_config(use_config)"),
 ]
